@@ -228,7 +228,7 @@ theorem fillSlotsX_length (ps : List Bytes) : ∀ (v : List Int) (i : Nat),
 /-! ### round trips (used by Props/C17 and by the report proofs) -/
 
 theorem versionUnmarshal_marshal (kind : Bytes) (v : List Int) (old : Version)
-    (hk : kind ≠ []) (hc : 58 ∉ kind) (hv : v.length = 10) (hold : old.v.length = 10)
+    (hk : kind ≠ []) (hc : 58 ∉ kind) (hv : v.length = 10)
     (hr : ∀ x ∈ v, inInt32 x) :
     versionUnmarshal old (versionMarshal ⟨kind, v⟩) = some ⟨kind, v⟩ := by
   have hke : kind.isEmpty = false := by cases kind <;> simp_all
@@ -243,8 +243,9 @@ theorem versionUnmarshal_marshal (kind : Bytes) (v : List Int) (old : Version)
       rcases List.mem_map.1 this with ⟨y, _, rfl⟩
       exact showInt_no 46 (by decide) (by decide) y
     rw [List.map_cons, splitOn_joinWith 46 _ _ hparts, ← List.map_cons]
-    rw [fillSlots_showInt (x :: xs) old.v 0 hold (by omega) hr]
-    have hlen : old.v.length ≤ 0 + (x :: xs).length := by omega
+    have hz : Version.zero.v.length = 10 := by simp [Version.zero]
+    rw [fillSlots_showInt (x :: xs) Version.zero.v 0 hz (by omega) hr]
+    have hlen : Version.zero.v.length ≤ 0 + (x :: xs).length := by omega
     rw [List.drop_eq_nil_of_le hlen]
     simp
 
